@@ -321,7 +321,7 @@ def ip_token_scope(t):
 def conf_scope(lines):
     """'ok' or 'unmodelled' for the generated section, following the order in which the model meets the lines (a rejecting
     line ends the walk: what follows is never looked at)"""
-    types = {"all": "src", "manager": "other", "localhost": "src", "to_localhost": "dst", "to_linklocal": "dst", "CONNECT": "method"}
+    types = {"all": "src", "manager": "other", "localhost": "src", "to_localhost": "dst", "to_linklocal": "dst", "connect": "method"}
     for l in lines:
         toks = []
         for t in l.split():
@@ -333,7 +333,7 @@ def conf_scope(lines):
         if toks[0] == "acl":
             if len(toks) < 3:
                 return "ok"          # rejected: missing name / type
-            name, ty, vals = toks[1], toks[2], toks[3:]
+            name, ty, vals = toks[1].lower(), toks[2], toks[3:]       # ACL names are case-insensitive (NamedAcls)
             if ty not in ("src", "dst", "dstdomain", "port", "method"):
                 return "unmodelled"
             if name in types and types[name] != ty:
@@ -364,7 +364,7 @@ def conf_scope(lines):
             if len(toks) < 2 or toks[1] not in ("allow", "deny"):
                 continue
             for t in toks[2:]:
-                n = t[1:] if t.startswith("!") else t
+                n = (t[1:] if t.startswith("!") else t).lower()
                 if n not in types:
                     return "ok"      # rejected: ACL not found
                 if types[n] == "other":
